@@ -93,5 +93,7 @@ Definition site_of (v : view) (k : key) (deep : bool) : psite :=
      s_pkg := o_pkg o;
      s_repr := key_repr k;
      s_deep := deep;
-     s_exported := o_exported o;
+     (* visible downstream: exported, or a package-level type name (the only key whose object is a type name; the
+        universes of the correspondence declare types at package level) -- repair of finding F79 *)
+     s_exported := o_exported o || match k with KTypeName _ => true | _ => false end;
      s_path := o_path o |}.
